@@ -563,8 +563,15 @@ class Builder:
             number=params.number, tp=EPRType.K
         )
 
+        # With a single communication qubit every pair arrives in virtual qubit 0
+        # and the body handles the pairs one at a time: there are no memory qubits
+        # to prepare, exactly as for a sequential request.
+        one_at_a_time = params.sequential or (
+            self._hardware_config is not None
+            and self._hardware_config.comm_qubit_count == 1
+        )
         qubit_futures = self._get_qubit_futures(
-            params.number, params.sequential, ent_results_array
+            params.number, one_at_a_time, ent_results_array
         )
         assert all(isinstance(q, Qubit) for q in qubit_futures)
 
